@@ -94,9 +94,14 @@ def run(ctx):
         return
 
     # ---- R11.5 handlers only callable from the worker ------------------------------------------------
+    def only_from_worker(name, seen=()):
+        cs = {g.name for n, g in F.fns.items() for bb, t in g.calls() if t.get("rpath") == name}
+        if not cs:
+            return False
+        return all(c == W.name or (c not in seen and only_from_worker(c, seen + (name,))) for c in cs)
     for h in sorted(handlers):
         cs = sorted({g.name for n, g in F.fns.items() for bb, t in g.calls() if t.get("rpath") == h})
-        ctx.check(cs == [W.name], "R11.5", "%s|only-worker-calls" % h, "a command handler is called only from the worker loop", F.fn(h).where(), str(cs))
+        ctx.check(only_from_worker(h), "R11.5", "%s|only-worker-calls" % h, "a command handler is called only from the worker loop (directly or from another handler)", F.fn(h).where(), str(cs))
     ctx.floor("R11.5", "command handlers", len(handlers), 4)
 
     # ---- R11.4 API: at most one queued command per call, and its acknowledgement is what is returned --
